@@ -1,4 +1,4 @@
-INIT EnumInit
+INIT MatrixInit
 NEXT MatrixNext
 CONSTANTS
   Formats = {}
@@ -7,12 +7,15 @@ CONSTANTS
   Ops1 = {}
   Ops2 = {}
   NestDepths = {}
+  SpliceWindow = 8
+  StructAllSeeds = FALSE
   SpliceOther = FALSE
   RandLens = {}
   NRand = 0
   NodeIdx = {}
+  ByteOpsAllSeeds = FALSE
   PanicOnForbidden = FALSE
-  ScaleSkip = {}
-  ByteSizes <- NoSizes
+  ScaleSkip = {"amf0.nest.objecta", "amf0.nest.ecma"}
+  ByteSizes <- QuickSizes
 INVARIANT EmitMatrix
 CHECK_DEADLOCK FALSE
